@@ -2,6 +2,7 @@ package main
 
 import (
 	"bytes"
+	"crypto/ed25519"
 	"fmt"
 	"runtime"
 	"time"
@@ -11,6 +12,7 @@ import (
 	"filippo.io/age/zverif/ax"
 	"filippo.io/age/zverif/keys"
 	"filippo.io/age/zverif/mon"
+	"golang.org/x/crypto/ssh"
 )
 
 // collect forces garbage collections and gives finalizers time to run.
@@ -121,6 +123,9 @@ func derivedValuesStage(r *mon.Run) {
 			r.Count("derived_values_used_after_collections", 1)
 		}
 	}
+	// the caller owns its arguments: after a constructor has returned the
+	// caller may wipe or reuse the buffers it passed
+	ownershipStage(r)
 	// collections in the middle of an operation: the destination (and the
 	// source) run the collector and finalizers inside their first calls
 	for rep := 0; rep < r.Pick(24, 120); rep++ {
@@ -190,4 +195,125 @@ func (g *gcReader) Read(p []byte) (int, error) {
 	}
 	g.n++
 	return g.r.Read(p)
+}
+
+// ownershipStage: byte buffers handed to a constructor or parser are wiped
+// (or reused for another key) right after the call returns, before the value
+// is first used.
+func ownershipStage(r *mon.Run) {
+	type made struct {
+		name string
+		make func() (id age.Identity, rc age.Recipient, wipe func())
+	}
+	edKey := func(fixture string) ed25519.PrivateKey {
+		k, err := ssh.ParseRawPrivateKey(keys.Data(fixture))
+		if err != nil {
+			panic(err)
+		}
+		return append(ed25519.PrivateKey(nil), *k.(*ed25519.PrivateKey)...)
+	}
+	zero := func(b []byte) func() {
+		return func() {
+			for i := range b {
+				b[i] = 0
+			}
+		}
+	}
+	kinds := []made{
+		{"agessh.NewEd25519Identity(key), key wiped", func() (age.Identity, age.Recipient, func()) {
+			k := edKey("ed1")
+			id, err := agessh.NewEd25519Identity(k)
+			if err != nil {
+				panic(err)
+			}
+			return id, keys.P("E1").Recipient, zero(k)
+		}},
+		{"agessh.NewEd25519Identity(key), buffer reused for another key", func() (age.Identity, age.Recipient, func()) {
+			k := edKey("ed1")
+			id, err := agessh.NewEd25519Identity(k)
+			if err != nil {
+				panic(err)
+			}
+			return id, keys.P("E1").Recipient, func() { copy(k, edKey("ed2")) }
+		}},
+		{"agessh.NewEd25519Identity(key).Recipient() after the key was wiped", func() (age.Identity, age.Recipient, func()) {
+			k := edKey("ed2")
+			id, err := agessh.NewEd25519Identity(k)
+			if err != nil {
+				panic(err)
+			}
+			zero(k)()
+			return keys.P("E2").Identity, id.Recipient(), func() {}
+		}},
+		{"agessh.ParseIdentity(pem), pem wiped", func() (age.Identity, age.Recipient, func()) {
+			b := append([]byte(nil), keys.Data("ed3")...)
+			id, err := agessh.ParseIdentity(b)
+			if err != nil {
+				panic(err)
+			}
+			return id, keys.P("E3").Recipient, zero(b)
+		}},
+		{"agessh.ParseIdentity(rsa pem), pem wiped", func() (age.Identity, age.Recipient, func()) {
+			b := append([]byte(nil), keys.Data("rsa2")...)
+			id, err := agessh.ParseIdentity(b)
+			if err != nil {
+				panic(err)
+			}
+			return id, keys.P("R2").Recipient, zero(b)
+		}},
+		{"agessh.ParseRecipient(line) from a buffer that is wiped", func() (age.Identity, age.Recipient, func()) {
+			b := append([]byte(nil), keys.Data("ed1.pub")...)
+			rc, err := agessh.ParseRecipient(string(b))
+			if err != nil {
+				panic(err)
+			}
+			return keys.P("E1").Identity, rc, zero(b)
+		}},
+		{"age.ParseIdentities(reader over a buffer), buffer wiped", func() (age.Identity, age.Recipient, func()) {
+			x := keys.NewX("own-1")
+			b := []byte("# key\n" + x.SecretStr + "\n")
+			ids, err := age.ParseIdentities(bytes.NewReader(b))
+			if err != nil {
+				panic(err)
+			}
+			return ids[0], x.Recipient(), zero(b)
+		}},
+		{"age.ParseRecipients(reader over a buffer), buffer wiped", func() (age.Identity, age.Recipient, func()) {
+			x := keys.NewX("own-2")
+			b := []byte(x.PublicStr + "\n")
+			rcs, err := age.ParseRecipients(bytes.NewReader(b))
+			if err != nil {
+				panic(err)
+			}
+			return x.Identity(), rcs[0], zero(b)
+		}},
+		// (agessh.NewEncryptedSSHIdentity is lazy by design: it keeps the encrypted
+		// key bytes it was given until a stanza matches, so wiping them is not in
+		// this list)
+	}
+	for ki, k := range kinds {
+		for rep := 0; rep < 2; rep++ {
+			id, rc, wipe := k.make()
+			wipe()
+			collect()
+			pt := mon.DetBytes(fmt.Sprintf("c01-own-%d-%d", ki, rep), 300+rep*70000)
+			file, err := ax.Encrypt(pt, rep == 1, rc)
+			r.Eval(1)
+			desc := "argument ownership: " + k.name
+			r.Distinct(fmt.Sprintf("%s rep=%d", desc, rep))
+			if err != nil {
+				r.Violate("encrypt-refused:argument-wiped-after-construction", fmt.Sprintf("%s: %v", desc, err), map[string]any{"kind": k.name})
+				continue
+			}
+			res := ax.Decrypt(bytes.NewReader(file), rep == 1, 0, id)
+			if !res.Clean() || !bytes.Equal(res.Plain, pt) {
+				r.Violate("decrypt-failed:argument-wiped-after-construction", fmt.Sprintf("%s: the listed recipient cannot open the file: %s", desc, res), map[string]any{"kind": k.name})
+				continue
+			}
+			r.Count("values_used_after_their_arguments_were_wiped", 1)
+		}
+	}
+	if r.Counter("values_used_after_their_arguments_were_wiped") == 0 {
+		r.Inconclusive("no value was used after its constructor's argument had been wiped")
+	}
 }
